@@ -112,6 +112,28 @@ def run(run):
                 fails.append({"kind": "input", "stream": "no-trace", "text": stmt.dec(".".join(rq.split()[4:])), "request": rq,
                               "oracle_verdict": "the result after earlier failed parses differs from the result in a fresh process"})
     run.add_stream("no trace", len(mixed) + len(valid), nt, [])
+    # long history in ONE process: hundreds of rejected inputs that fail deep inside brackets / sub-queries, then valid statements
+    deep_bad = ["SELECT a FROM t WHERE ((b +) > 1)", "SELECT f(g(h(1,)))", "SELECT a FROM (SELECT b FROM (SELECT c FROM", "SELECT (((a))) FROM t WHERE (x IN (1, (2 +",
+                "INSERT INTO t VALUES ((1), (2,), ((3)", "SELECT CASE WHEN (a = (b)) THEN ((1) END", "SELECT a FROM t WHERE EXISTS (SELECT 1 FROM u WHERE (a = ) )",
+                "CREATE TABLE t (a INT(11, DEFAULT (1 +)", "SELECT a[(1 + ] FROM t", "WITH w AS (SELECT (a FROM t) SELECT 1", "SELECT 'x", "SELECT (a))"]
+    deep_ok = ["SELECT ((a + (b * (c - (d))))) FROM (SELECT a, b, c, d FROM (SELECT * FROM t) x) y WHERE (a IN (SELECT (b) FROM u WHERE ((c) = (1))))",
+               "SELECT f(g(h(i(1, (2))))) FROM t", "INSERT INTO t VALUES ((1), ((2))), (3, (4))", "SELECT CASE WHEN ((a)) THEN ((b)) ELSE (((c))) END FROM t"]
+    seq = []
+    for _ in range(3):
+        for _ in range(100):
+            seq.append(sqlgen.parse_request("statements", run.rng.choice(dialects), run.rng.choice(deep_bad)))
+        for s_ in deep_ok:
+            seq.append(sqlgen.parse_request("statements", "DEFAULT", s_))
+    a_seq = core.run_impl(seq)                      # fewer than 400 requests: one process, in this order
+    fresh = dict(zip([sqlgen.parse_request("statements", "DEFAULT", s_) for s_ in deep_ok],
+                     [core.run_impl([sqlgen.parse_request("statements", "DEFAULT", s_)])[0] for s_ in deep_ok]))
+    for rq, a in zip(seq, a_seq):
+        if rq in fresh and a != fresh[rq]:
+            fails.append({"kind": "history", "stream": "no-trace (long history)", "text": stmt.dec(".".join(rq.split()[4:])), "request": rq,
+                          "history": "after %d rejected inputs in the same process" % seq.index(rq),
+                          "oracle_verdict": "a valid statement is answered differently after many rejected inputs: %s (fresh process: %s)" % (a[:80], fresh[rq][:80])})
+            break
+    run.add_stream("no trace, long history in one process", len(seq), len(deep_bad) + len(deep_ok), [])
     run.cov["rule"] = ("malformed stream: prefixes (character and token granularity), deletion, duplication, adjacent swap, replacement by probe tokens of generated "
                        "statements (nesting depth <= 30) through parse_statements; random token soups and expression prefixes through EVERY public parse_* entry "
                        "point; every outcome must be a tree or LexicalParseError / SqlParseError / NotSupportError; 30 s alarm per request; valid parses "
@@ -128,6 +150,9 @@ def run(run):
 
 def replay(path):
     def chk(obj):
+        if obj.get("stream", "").startswith("no-trace"):
+            print("replay: history replay -- re-run ./check C07 (the failing history is regenerated from the seed)")
+            return "history replay not supported stand-alone"
         a = core.run_impl([obj["request"]])[0]
         return judge(a)
     return stmt.replay_generic(path, chk)
